@@ -425,12 +425,20 @@ class Inotify:
             raise OSError(errno.ENOTDIR, os.strerror(errno.ENOTDIR), path)
         self._add_watch(path, mask)
         if recursive:
+            failure: OSError | None = None
             for root, dirnames, _ in os.walk(path, followlinks=self._follow_symlink):
                 for dirname in dirnames:
                     full_path = os.path.join(root, dirname)
                     if not self._follow_symlink and os.path.islink(full_path):
                         continue
-                    self._add_watch(full_path, mask)
+                    try:
+                        self._add_watch(full_path, mask)
+                    except OSError as e:
+                        # One sub-directory that cannot be watched (it may just have vanished) must not leave
+                        # the others unwatched: the first failure is reported once all of them have been tried.
+                        failure = failure or e
+            if failure is not None:
+                raise failure
 
     def _add_watch(self, path: bytes, mask: int) -> int:
         """Adds a watch for the given path to monitor events specified by the
